@@ -104,6 +104,47 @@ theorem cli_wmc_order {α : Type} (C : CacheImpl) (o : VarOrder) (n : Nat) (hwf 
     · rw [h1]; show wsumList S _ w (fun b => d.eval b) a = _; rw [hfun]
     · rw [h2]; show wsum S _ w (fun b => d.eval b) a = _; rw [hfun]
 
+/-- **the formula-to-BDD tool under a real order**: for every well-formed order over `n` variables
+and every formula text over variables `< n`, the table emitted under the order's own `get` denotes
+the formula as written. -/
+theorem cli_formula_to_bdd_order (C : CacheImpl) (o : VarOrder) (n : Nat) (hwf : o.WF n)
+    (fuel : Nat) (t : SExp) (e : LogicalSExpr) (le : Ser.LogicalExpr)
+    (ht : LogicalSExpr.ofSExp t = some e) (hle : fromSexpr e = some le)
+    (hvars : (toCompileExpr le).AllVars (· < n)) (tbl : BddTable)
+    (hrun : formulaToBdd C o.get fuel le = some tbl) :
+    ∃ root, tbl.roots = [root] ∧
+      ∀ a, evalSExp (nameAssign t a) t = some (evalBddTable tbl root a) := by
+  unfold formulaToBdd at hrun
+  rw [(compile_order C o n fuel (toCompileExpr le) hvars).1] at hrun
+  exact C19.cli_formula_to_bdd_spec C (extLvl o n) (extLvl_inj hwf) fuel t e le ht hle tbl hrun
+
+/-- plan compilation under the order's own `get` is compilation under its injective extension -/
+theorem compilePlan_order (C : CacheImpl) (o : VarOrder) (n fuel : Nat) (p : Compile.Plan)
+    (hv : p.AllVars (· < n)) :
+    Compile.compilePlan (Bdd.ops C o.get fuel) C.empty p
+      = Compile.compilePlan (Bdd.ops C (extLvl o n) fuel) C.empty p ∧
+    ∀ s' d, Compile.compilePlan (Bdd.ops C o.get fuel) C.empty p = some (s', d) → d.varsLt n := by
+  obtain ⟨h1, h2⟩ := Compile.compilePlan_agree (ops_agree (extLvl_agree o n) C fuel) p C.empty
+    (cacheVars_empty C n) hv
+  exact ⟨h1, fun s' d h => (h2 s' d h).2⟩
+
+/-- **the CNF-to-BDD tool under a real order**: for every well-formed order over `n` variables and
+every dtree over the clauses of the parsed text whose plan mentions variables `< n` only, the table
+emitted for the diagram compiled under the order's own `get` denotes the CNF of the text, and the
+diagram only mentions variables of the order. -/
+theorem cli_cnf_to_bdd_order (C : CacheImpl) (o : VarOrder) (n : Nat) (hwf : o.WF n)
+    (fuel : Nat) (text : String) (c0 : Cnf) (hparse : parseDimacs text = some c0)
+    (tree : Compile.DTree) (hleaves : tree.clauses.Perm (Ser.cnfNew c0))
+    (hvars : (Compile.Plan.fromDtree tree).AllVars (· < n))
+    {s' : C.σ} {d : Ptr}
+    (hcomp : Compile.compilePlan (Bdd.ops C o.get fuel) C.empty (Compile.Plan.fromDtree tree) = some (s', d)) :
+    d.varsLt n ∧ ∃ root, (serBdd d).roots = [root] ∧
+      ∀ a, evalBddTable (serBdd d) root a = cnfSat a c0 := by
+  obtain ⟨h1, h2⟩ := compilePlan_order C o n fuel (Compile.Plan.fromDtree tree) hvars
+  refine ⟨h2 s' d hcomp, ?_⟩
+  rw [h1] at hcomp
+  exact C19.cli_cnf_to_bdd_spec C (extLvl o n) (extLvl_inj hwf) fuel text c0 hparse tree hleaves hcomp
+
 /-! non-vacuity: a non-trivial permutation is a well-formed order, and the linear order is -/
 example : (VarOrder.new [2, 0, 1]).WF 3 := new_wf (by decide)
 example (n : Nat) : (VarOrder.linear n).WF n := linear_wf n
@@ -111,4 +152,7 @@ example (n : Nat) : (VarOrder.linear n).WF n := linear_wf n
 #print axioms extLvl_inj
 #print axioms compile_order
 #print axioms cli_wmc_order
+#print axioms cli_formula_to_bdd_order
+#print axioms compilePlan_order
+#print axioms cli_cnf_to_bdd_order
 end C19Order
